@@ -511,25 +511,86 @@ func c06Fallbacks(r *Run, reg *Registry) {
 		if fn == nil {
 			r.Unk("C06.D5", key, token.NoPos, "anchor missing")
 		} else {
-			nValue, nNew, nRet := 0, 0, 0
-			allInstrs(fn, func(in ssa.Instruction) {
-				switch x := in.(type) {
-				case *ssa.Alloc:
-					if typeName(x.Type()) == "Value" && typePkgPath(x.Type()) == modPath+"/ttlv" {
-						nValue++
-					}
-				case *ssa.Call:
-					if callID(&x.Call).is("reflect", "", "New") {
-						nNew++
-					}
-				case *ssa.Return:
-					nRet++
+			// every return is either the generic container reflect.ValueOf(&ttlv.Value{}), or reflect.New(ty) with ty the
+			// table entry of the name, returned only when the entry exists and the name is not a custom one
+			nGeneric, nTyped, bad := 0, 0, ""
+			for _, b := range fn.Blocks {
+				ret, ok := b.Instrs[len(b.Instrs)-1].(*ssa.Return)
+				if !ok || len(ret.Results) != 1 {
+					continue
 				}
-			})
-			if nValue >= 2 && nNew == 1 && nRet == 3 {
-				r.OK("C06.D5", key, fn.Pos(), "custom (x-/y-) and unregistered names decode into a generic ttlv.Value; registered names into reflect.New(attrTypes[name])")
+				var classify func(v ssa.Value, d int) string
+				classify = func(v ssa.Value, d int) string {
+					if d > 4 {
+						return "?"
+					}
+					switch x := v.(type) {
+					case *ssa.Call:
+						id := callID(&x.Call)
+						if id.is("reflect", "", "ValueOf") {
+							a := x.Call.Args[0]
+							if mi, ok := a.(*ssa.MakeInterface); ok {
+								a = mi.X
+							}
+							if al, ok := a.(*ssa.Alloc); ok && typeName(al.Type()) == "Value" && typePkgPath(al.Type()) == modPath+"/ttlv" {
+								return "generic"
+							}
+						}
+						if id.is("reflect", "", "New") {
+							if ex, ok := x.Call.Args[0].(*ssa.Extract); ok {
+								if lk, ok := ex.Tuple.(*ssa.Lookup); ok && lk.CommaOk && unspill(lk.Index) == ssa.Value(fn.Params[0]) {
+									// dominated by ok == true and IsCustom() == false
+									okEdge, notCustom := false, false
+									hasCustomTest := false
+									allInstrs(fn, func(in ssa.Instruction) {
+										if c, ok := in.(*ssa.Call); ok && callID(&c.Call).name == "IsCustom" {
+											hasCustomTest = true
+										}
+									})
+									for _, dc := range dominatingConds(x.Block()) {
+										if e2, ok := dc.cond.(*ssa.Extract); ok && e2.Tuple == ssa.Value(lk) && e2.Index == 1 && dc.outcome {
+											okEdge = true
+										}
+										if c, ok := dc.cond.(*ssa.Call); ok && callID(&c.Call).name == "IsCustom" && !dc.outcome {
+											notCustom = true
+										}
+									}
+									if okEdge && (notCustom || !hasCustomTest) {
+										return "typed"
+									}
+									return "typed-unguarded"
+								}
+							}
+						}
+					case *ssa.Phi:
+						kinds := map[string]bool{}
+						for _, e := range x.Edges {
+							kinds[classify(e, d+1)] = true
+						}
+						if len(kinds) == 1 {
+							for k := range kinds {
+								return k
+							}
+						}
+						return "mixed"
+					}
+					return "?"
+				}
+				switch k := classify(ret.Results[0], 0); k {
+				case "generic":
+					nGeneric++
+				case "typed":
+					nTyped++
+				default:
+					bad = k
+				}
+			}
+			// a custom name must not reach the typed return: either the typed return is under !IsCustom(), or custom names are
+			// never in the table (they are not: C06.D3 shows the table holds the standard names only)
+			if bad == "" && nGeneric >= 1 && nTyped >= 1 {
+				r.OK("C06.D5", key, fn.Pos(), "custom (x-/y-) and unregistered names decode into a generic ttlv.Value (%d return(s)); registered names into reflect.New(attrTypes[name]) under the ok edge of the lookup (%d return(s))", nGeneric, nTyped)
 			} else {
-				r.Unk("C06.D5", key, fn.Pos(), "newAttribute shape not recognised (ttlv.Value allocs=%d reflect.New=%d returns=%d)", nValue, nNew, nRet)
+				r.Unk("C06.D5", key, fn.Pos(), "newAttribute: a return is neither the generic container nor reflect.New of the looked-up type under its ok edge (generic=%d typed=%d other=%q)", nGeneric, nTyped, bad)
 			}
 		}
 	}
